@@ -313,6 +313,22 @@ def other_unit(kind):
                             F(("records", lab, "relocate-entry"), "%s: after relocate(%#x) the program counter is %s" % (lab, newbase, pc), cdesc)
             except Exception as ex:
                 F(("records", lab, "load-exc:%s@%s" % exc_sig(ex)), "%s: load_program raised %r" % (lab, ex), cdesc)
+        # a raw task built from a format object whose data stream was already read from: the image is the whole file
+        try:
+            from amoco.system.core import read_program
+            from amoco.system.raw import RawExec
+            for consumed in (0, 2, len(raw)):
+                n += 1
+                pobj = read_program(raw)
+                pobj.dataio.read(consumed)
+                t2 = RawExec(pobj, cpu_x86)
+                got = flat(t2.state.mmap.read(0, len(raw)))
+                if got != list(raw):
+                    F(("records", "raw", "stream-position"), "raw task built after reading %d bytes from the data stream: image at 0 reads %r..., file %r..." % (
+                        consumed, got[:6], list(raw[:6])), {"kind": "records", "label": "raw-after-read"})
+                    break
+        except Exception as ex:
+            F(("records", "raw", "stream-exc:%s@%s" % exc_sig(ex)), "raw task after reading the data stream raised %r" % (ex,), {"kind": "records", "label": "raw-after-read"})
     elif kind == "samples":
         for path in c14.sample_files():
             blob = open(path, "rb").read()
